@@ -74,6 +74,7 @@ TenorLaws == (done /\ k = "ten") =>
     /\ RatEq(TenorYears(52 * a, "w"), Whole(a)) /\ RatEq(TenorYears(365 * a, "d"), Whole(a))
     /\ RatEq(TenorYears(252 * a, "b"), Whole(a))
     /\ RatEq(TenorYears(a, "q"), TenorYears(3 * a, "m"))
+    /\ \A u \in TenorUnits : RatEq(Reduced(TenorYears(a, u)), TenorYears(a, u)) /\ Gcd(Abs(Reduced(TenorYears(a, u))[1]), Reduced(TenorYears(a, u))[2]) = 1
     /\ \A u \in TenorUnits : IsRat(TenorYears(a, u)) /\ (a > 0 <=> RatLt(Whole(0), TenorYears(a, u)))
 
 \* ---- generators ----------------------------------------------------------------------------
@@ -85,7 +86,7 @@ GenNext ==
     CASE k = "gyb"  -> Emit([k |-> "yb", t0 |-> a, t1 |-> [i \in 1..Len(OffSeq) |-> a + OffSeq[i]],
                              want |-> [i \in 1..Len(OffSeq) |-> WholeYears(a, a + OffSeq[i])]])
       [] k = "gytm" -> Emit([k |-> "ytm", M |-> a, ts |-> [i \in 1..Len(OffSeq) |-> a - OffSeq[i]],
-                             want |-> [i \in 1..Len(OffSeq) |-> YTM(a, a - OffSeq[i])]])
+                             want |-> [i \in 1..Len(OffSeq) |-> Reduced(YTM(a, a - OffSeq[i]))]])
       [] k = "gten" -> Emit([k |-> "ten", ns |-> [n \in 1..121 |-> n - 61],
-                             want |-> [u \in TenorUnits |-> [n \in 1..121 |-> TenorYears(n - 61, u)]]])
+                             want |-> [u \in TenorUnits |-> [n \in 1..121 |-> Reduced(TenorYears(n - 61, u))]]])
 =============================================================================
